@@ -48,8 +48,14 @@ class Tok:
         self.serial = int(s)
         self.act = f[4] if len(f) > 4 else None
         self.res = f[5] if len(f) > 5 and self.K == 'G' else None
-        if self.K != 'G' and len(f) > 5:
-            self.extra = (self.extra or '') + ':' + ':'.join(f[5:])
+        rest = f[6:] if self.K == 'G' else f[5:]
+        if rest:
+            self.extra = (self.extra or '') + ':' + ':'.join(rest)
+
+    def flags(self):
+        if self.extra and ':F' in self.extra:
+            return self.extra.split(':F', 1)[1].split(':')[0]
+        return None
 
     def key(self, with_act=False):
         if self.K == '!':
@@ -114,6 +120,8 @@ def snapshot_fields(canon):
             out['cmemo'] = part[2:]
         elif part.startswith('S:'):
             out['started'] = part[2:] == '1'
+        elif part.startswith('I:'):
+            out['introhash'] = part[2:]
         elif part.startswith('FO:'):
             out['fault_ops'] = int(part[3:])
     return out
@@ -177,10 +185,10 @@ def iterate(outfile):
 class Conformer:
     """drives the model alongside the explored executions"""
 
-    def __init__(self, zoo, cfg, faults=False, n_menu=0, submit_in_nt=False):
+    def __init__(self, zoo, cfg, faults=False, n_menu=0, submit_in_nt=False, observe_flags=False):
         self.z = desc.for_family(zoo, cfg)
         self.cfg = cfg
-        self.opts = {'faults': faults, 'n_menu': n_menu, 'submit_in_nt': submit_in_nt, 'cfg': cfg}
+        self.opts = {'faults': faults, 'n_menu': n_menu, 'submit_in_nt': submit_in_nt, 'cfg': cfg, 'observe_flags': observe_flags}
         self.worlds = {}
         self.canon = {}
         self.intro = {}
